@@ -371,6 +371,10 @@ class FunctionParser(BaseParser):
             fields.append((i, field))
         return fields
 
+    @cached_property
+    def positional_params(self) -> List[inspect.Parameter]:
+        return [v for k, v in self.parameters if v.kind in (v.POSITIONAL_ONLY, v.POSITIONAL_OR_KEYWORD)]
+
     def __str__(self):
         return f"<{self.__class__.__name__}: {self.obj.__qualname__}>"
 
@@ -652,9 +656,17 @@ class FunctionParser(BaseParser):
                 continue
             default = field.get_default(context.options)
             if not unprovided(default):
-                # this position is definitely after parsed_args
-                # because required args is always (we enforce check) ahead of default args
-                parsed_args.append(default)
+                # this position is after parsed_args
+                # because required args is always (we enforce check) ahead of default args,
+                # but omitted excluded (private) params may sit in between: they take their own declared default
+                # so that this default lands in its own slot
+                while len(parsed_args) < index and len(parsed_args) in self.exclude_indexes:
+                    param = self.positional_params[len(parsed_args)]
+                    if param.default is param.empty:
+                        break
+                    parsed_args.append(param.default)
+                if len(parsed_args) == index:
+                    parsed_args.append(default)
             parsed_keys.append(field.attname)  # need to append parsed as well
             # positional only field is excluded no matter the arg is provided or not
 
